@@ -63,6 +63,12 @@ def _build(d):
     extras = {}
     for i in range(d.pick(5)):
         extras['Sheet1!G%d' % (i + 1)] = d.choice(EXTRA_VALUES)
+    if d.chance(1, 16):
+        # long non-ASCII texts: the JSON grows beyond 64 KiB / 128 KiB
+        extras['Sheet1!G7'] = ['s', d.choice([u'é', u'日本', u'aé', u'\U0001F600x'])
+                               * d.choice([20000, 33000, 70001])]
+        extras['Sheet1!G8'] = ['s', u'ü' + 'x' * d.choice([65530, 65535,
+                                                          65536, 131071])]
     errs = {}
     for i in range(d.pick(3)):
         errs['Sheet1!H%d' % (i + 1)] = d.choice(ERR_FORMULAS)
